@@ -531,6 +531,75 @@ var checkKeyvalue = register("c16.keyvalue", func(c KVCase) *Violation {
 	return nil
 })
 
+// kvDirectChain: every .keyvalue() after the first one applies directly to the triples of the one before it.
+// Such a triple is its own base object (offset 0), so its id is the documented generation counter times 10^10
+// and has no address in it: open finding D30 (ids that contain the address of a transient triple) does not
+// reach these paths.
+func kvDirectChain(pathText string) bool {
+	parts := strings.Split(pathText, "keyvalue()")
+	if len(parts) < 3 {
+		return false
+	}
+	for _, mid := range parts[1 : len(parts)-1] {
+		if mid != "." {
+			return false
+		}
+	}
+	return true
+}
+
+// checkKVChain: the ids of directly chained .keyvalue() steps are the same in every execution - whatever ran
+// before on this Path, on another Path or through another entry point (nothing about an execution may survive it).
+var checkKVChain = register("c16.kvchain", func(c KVCase) *Violation {
+	p, err, pan := ParseSafe(c.Path)
+	if err != nil || pan != "" || !kvDirectChain(c.Path) {
+		return nil
+	}
+	doc, derr := Decode(c.Doc, c.UseNumber)
+	if derr != nil {
+		return nil
+	}
+	ctx := context.Background()
+	first := RunQuery(ctx, p, doc)
+	if first.Panic != "" {
+		return violf("%q on %s panicked: %s", c.Path, c.Doc, first.Panic)
+	}
+	if first.Class != EOK || len(first.Items) == 0 {
+		return nil
+	}
+	want := RenderSeq(first.Items, false)
+	others := []string{"$.keyvalue()", "$.*.keyvalue().id", "$.keyvalue().keyvalue().id", "strict $.**.keyvalue().key", "$ ? (exists(@.keyvalue().value.double()))", "$.keyvalue() ? (@.value.keyvalue().id > 0)"}
+	for i, ot := range others {
+		q, qerr, _ := ParseSafe(ot)
+		if qerr != nil {
+			return violf("harness: %q does not parse", ot)
+		}
+		switch i % 4 {
+		case 0:
+			RunQuery(ctx, q, doc)
+		case 1:
+			RunFirst(ctx, q, doc)
+		case 2:
+			RunExists(ctx, q, doc)
+		default:
+			RunQuery(ctx, q, doc, exec.WithSilent())
+		}
+		var again Outcome
+		how := "Query on the same Path"
+		if i%2 == 0 {
+			again = RunQuery(ctx, p, doc)
+		} else {
+			p2, _, _ := ParseSafe(c.Path)
+			again = RunQuery(ctx, p2, doc)
+			how = "Query on the path parsed again"
+		}
+		if got := RenderSeq(again.Items, false); again.Class != EOK || !sameMultiset(want, got) {
+			return violf("%q on %s: keyvalue ids are not stable over repeated executions: the first execution returned %v; after %q had run, %s returned %v (%s)", c.Path, c.Doc, want, ot, how, got, again)
+		}
+	}
+	return nil
+})
+
 var checkKVDistinctCase = register("c16.kvdistinct", func(c KVCase) *Violation {
 	d, err := Decode(c.Doc, c.UseNumber)
 	if err != nil {
@@ -852,6 +921,11 @@ func TestC16(t *testing.T) {
 		ev.Eval(c.Path+"\x00"+c.Doc, true)
 		ev.Sample("keyvalue", c)
 		ev.Check(rt, "c16.keyvalue", c, checkKeyvalue(c))
+		if rapid.IntRange(0, 2).Draw(rt, "chain") == 0 {
+			cc := KVCase{Doc: c.Doc, UseNumber: c.UseNumber, Path: rapid.SampledFrom([]string{"$.keyvalue().keyvalue()", "$.keyvalue().keyvalue().id", "$[*].keyvalue().keyvalue().id", "$.keyvalue().keyvalue().keyvalue().id", "$.a.keyvalue().keyvalue()", "strict $.**.keyvalue().keyvalue().id", "$.*.keyvalue().keyvalue().keyvalue()"}).Draw(rt, "chainpath")}
+			ev.Label("keyvalue:direct_chain")
+			ev.Check(rt, "c16.kvchain", cc, checkKVChain(cc))
+		}
 		if _, err := Decode(c.Doc, c.UseNumber); err == nil {
 			ev.Check(rt, "c16.kvdistinct", c, checkKVDistinctCase(c))
 			for _, pre := range []string{"$[*]", "$", "$.a", "$.a[*]", "strict $.**"} {
